@@ -2,3 +2,4 @@ pub mod aml;
 pub mod engine;
 pub mod props;
 pub mod tables;
+pub mod fuzzapi;
